@@ -132,7 +132,10 @@ func (fr *frame) callCommon(st *State, cc *ssa.CallCommon, args []Val, fv Val, p
 		fr.safety(st, "nil", pos, "call", u.C.Ne(recv.Tag, u.C.BVu(0, 32)))
 		key := "(" + types.TypeString(cc.Value.Type(), nil) + ")." + cc.Method.Name()
 		full := append([]Val{recv}, args...)
-		if bc := u.E.externFor(key, cc.Method); bc != nil {
+		if h := u.E.intrinsics[key]; h != nil {
+			return h(fr, st, nil, full, pos)
+		}
+		if bc := u.E.externFor(u.Fn, key); bc != nil {
 			return resultVal(u, sig, fr.applyContract(st, bc, full, pos, key))
 		}
 		// a statically known dynamic type?  (tag constant) -> devirtualise
@@ -178,12 +181,30 @@ func (fr *frame) callStatic(st *State, fn *ssa.Function, args []Val, free []Val,
 	if bc := u.E.contractFor(fn); bc != nil && !bc.Inline && !(u.specMode > 0 && bc.Pure) {
 		return resultVal(u, sig, fr.applyContract(st, bc, args, pos, fnKey(fn)))
 	}
-	if bc := u.E.externFor(fnKey(fn), fn.Object()); bc != nil {
+	if bc := u.E.externFor(u.Fn, fnKey(fn)); bc != nil {
 		return resultVal(u, sig, fr.applyContract(st, bc, args, pos, fnKey(fn)))
 	}
 	// inline
 	if len(fn.Blocks) > 0 && u.canInline(fn) {
 		var res Val
+		// inline-with-contract: the callee's preconditions are checked here and its separately proved,
+		// quantifier-free postconditions are added as lemmas after the inlined body
+		ibc := u.E.contractFor(fn)
+		var pre *State
+		if ibc != nil && u.specMode == 0 {
+			env := u.newSpecEnv(ibc, st, st, args, nil)
+			site := u.srcText(fr.fn, pos, "call")
+			for _, rq := range ibc.Requires {
+				g := env.evalBool(rq.Expr)
+				if !fr.recovers() {
+					u.oblige(st, "requires@call", fmt.Sprintf("%s requires %s", site, rq.Text()), pos, g)
+				}
+				if !g.HasQuant() {
+					u.assume(st, g)
+				}
+			}
+			pre = st.clone()
+		}
 		ok := func() (ok bool) {
 			saveSt := st.clone()
 			saveAss := len(u.assumes)
@@ -219,6 +240,14 @@ func (fr *frame) callStatic(st *State, fn *ssa.Function, args []Val, free []Val,
 			*st = *out.clone()
 			res = resultVal(u, sig, vals)
 			u.Inlined[fn.String()] = true
+			if pre != nil {
+				post := u.newSpecEnv(ibc, st, pre, args, vals)
+				for _, en := range ibc.Ensures {
+					if g := post.evalBool(en.Expr); !g.HasQuant() {
+						u.assume(st, g)
+					}
+				}
+			}
 			return true
 		}()
 		if ok {
@@ -349,11 +378,15 @@ func (fr *frame) frameCheckRange(st *State, base, off, n *Term, et types.Type, p
 	if u.specMode > 0 {
 		return
 	}
+	freshID := 0
 	if r, k := addrRoot(base); k == 1 && r.K > 0 {
-		return
+		freshID = r.K
 	}
-	check := func(reg *Region, kind, label string) {
+	check := func(reg *Region, kind, label string, minFresh int) {
 		if reg == nil || reg.All {
+			return
+		}
+		if freshID > minFresh {
 			return
 		}
 		// skolem index within the range
@@ -369,9 +402,9 @@ func (fr *frame) frameCheckRange(st *State, base, off, n *Term, et types.Type, p
 		name := label + " " + u.srcText(fr.fn, pos, "call")
 		u.oblige(st, kind, name, pos, g)
 	}
-	check(u.fnRegion, "frame", "write")
+	check(u.fnRegion, "frame", "write", 0)
 	for _, lr := range u.loopRegion {
-		check(lr.region, "loopframe", lr.name+" write")
+		check(lr.region, "loopframe", lr.name+" write", lr.minFresh)
 	}
 }
 
@@ -451,6 +484,9 @@ func (fr *frame) applyContract(st *State, bc *BoundContract, args []Val, pos tok
 		if bc.FreshResult[i] {
 			a := u.newObj()
 			v = a
+			if _, isIface := rt.Underlying().(*types.Interface); isIface {
+				v = &IfaceV{Tag: c.Var(u.freshName("r_"+bc.FC.Name+".tag"), BV(32)), Ptr: a}
+			}
 		} else {
 			v = u.symVal(u.freshName("r_"+bc.FC.Name), rt, false)
 		}
@@ -478,7 +514,12 @@ func (fr *frame) checkSubRegion(st *State, reg *Region, site string, pos token.P
 			if len(fs) == 0 {
 				continue
 			}
-			a := u.C.EntryAddrVar(u.freshName("fa"))
+			var a *Term
+			if kind == "frame" {
+				a = u.C.EntryAddrVar(u.freshName("fa")) // function frame: only cells that existed at entry matter
+			} else {
+				a = u.C.Var(u.freshName("fa"), SAddr)
+			}
 			var ds []*Term
 			for _, f := range fs {
 				ds = append(ds, f(a))
@@ -579,15 +620,26 @@ func (fr *frame) runLoop(l *loop, ins []edge, incoming map[*ssa.BasicBlock][]edg
 	if dec != nil {
 		m0 = env1.evalTerm(dec.Expr)
 	}
-	// 3. body
-	u.loopRegion = append(u.loopRegion, &loopRegion{region: lreg, name: lname})
-	inc := map[*ssa.BasicBlock][]edge{l.header: {{nil, st1}}}
-	// phi nodes at the header: values come from havocked cells in naive form; reject real phis
+	// 3. body (once per case of the optional case split)
 	for _, in := range l.header.Instrs {
 		if _, ok := in.(*ssa.Phi); ok {
 			unsupported("phi at loop header in %s", fr.fn)
 		}
 	}
+	var splitTerms []*Term
+	if bc != nil && len(bc.LoopSplit[l.ordinal]) > 0 {
+		fr.checkNoEscapingRegs(l)
+		for _, se := range bc.LoopSplit[l.ordinal] {
+			splitTerms = append(splitTerms, env1.evalBool(se))
+		}
+	}
+	st1All := st1
+	for _, cs := range u.enumCases(splitTerms) {
+	st1 := st1All.clone()
+	restore := u.enterCase(st1, cs)
+	fr.heads = append(fr.heads, st1.clone())
+	u.loopRegion = append(u.loopRegion, &loopRegion{region: lreg, name: lname, minFresh: u.nextObj})
+	inc := map[*ssa.BasicBlock][]edge{l.header: {{nil, st1}}}
 	backs := fr.runBlocks(blocks, inc, l)
 	u.loopRegion = u.loopRegion[:len(u.loopRegion)-1]
 	for b, es := range inc {
@@ -607,8 +659,102 @@ func (fr *frame) runLoop(l *loop, ins []edge, incoming map[*ssa.BasicBlock][]edg
 			u.oblige(e.st, "loop.decreases", fmt.Sprintf("%s decreases %s", lname, dec.Text()), dec.Pos(), g)
 		}
 	}
+	fr.heads = fr.heads[:len(fr.heads)-1]
+	restore()
+	}
 	if dec == nil && bc != nil && bc.Terminates && u.specMode == 0 {
 		u.oblige(st1, "loop.decreases", lname+" has no decreases clause", fr.fn.Pos(), c.False)
+	}
+}
+
+// ---- case splits ----------------------------------------------------------------------------
+
+type caseAssign struct {
+	terms []*Term
+	vals  []bool
+}
+
+func (u *Unit) enumCases(terms []*Term) []caseAssign {
+	var ts []*Term
+	for _, t := range terms {
+		if !t.IsConst() {
+			ts = append(ts, t)
+		}
+	}
+	n := len(ts)
+	if n > 6 {
+		unsupported("case split over more than 6 conditions")
+	}
+	var out []caseAssign
+	for m := 0; m < 1<<n; m++ {
+		ca := caseAssign{terms: ts}
+		for i := 0; i < n; i++ {
+			ca.vals = append(ca.vals, m&(1<<i) == 0)
+		}
+		out = append(out, ca)
+	}
+	return out
+}
+
+// enterCase restricts st to the case and installs the rewrites that make the case conditions constants
+// in every term built while the case is executed. The returned function undoes this.
+func (u *Unit) enterCase(st *State, ca caseAssign) func() {
+	if len(ca.terms) == 0 {
+		return func() {}
+	}
+	c := u.C
+	var conds []*Term
+	tag := ""
+	for i, t := range ca.terms {
+		if ca.vals[i] {
+			conds = append(conds, t)
+			tag += "T"
+		} else {
+			conds = append(conds, c.Not(t))
+			tag += "F"
+		}
+	}
+	cond := c.And(conds...)
+	st.pc = c.And(st.pc, cond)
+	oldRw, oldCache, oldTag, oldCond := c.Rewrite, u.MC.cache, u.caseTag, u.caseCond
+	rw := map[int]*Term{}
+	for k, v := range oldRw {
+		rw[k] = v
+	}
+	for i, t := range ca.terms {
+		base := t
+		val := ca.vals[i]
+		if t.Op == OpNot {
+			base, val = t.Args[0], !val
+		}
+		rw[base.id] = c.Bool(val)
+	}
+	c.Rewrite = rw
+	u.MC.cache = map[[2]int]*Term{}
+	if oldTag != "" {
+		u.caseTag = oldTag + "/" + tag
+	} else {
+		u.caseTag = tag
+	}
+	if oldCond != nil {
+		u.caseCond = c.And(oldCond, cond)
+	} else {
+		u.caseCond = cond
+	}
+	// re-evaluate register cells holding the split conditions so that the constants propagate
+	for k, v := range st.cells {
+		if t, ok := v.(*Term); ok {
+			if r, ok := rw[t.id]; ok {
+				st.cells[k] = r
+			} else if t.Op == OpNot {
+				if r, ok := rw[t.Args[0].id]; ok {
+					st.cells[k] = c.Not(r)
+				}
+			}
+		}
+	}
+	return func() {
+		c.Rewrite, u.MC.cache, u.caseTag, u.caseCond = oldRw, oldCache, oldTag, oldCond
 	}
 }
 
